@@ -943,7 +943,16 @@ func (r *Reconciler) track(limit rate.Limit, limiterKey, processScope string, li
 
 func (r *Reconciler) deleteReservation(ctx context.Context, job *sev1alpha1.PodMigrationJob) error {
 	if job.Spec.ReservationOptions == nil || job.Spec.ReservationOptions.ReservationRef == nil {
-		return nil
+		if job.UID == "" {
+			return nil
+		}
+		// createReservation persists the reference with a second write: when that write failed (or the create's
+		// answer was lost) the Reservation named after the job exists without being referenced.
+		err := r.reservationInterpreter.DeleteReservation(ctx, &corev1.ObjectReference{Name: string(job.UID)})
+		if errors.IsNotFound(err) {
+			return nil
+		}
+		return err
 	}
 	return r.reservationInterpreter.DeleteReservation(ctx, job.Spec.ReservationOptions.ReservationRef)
 }
